@@ -654,20 +654,44 @@ func (c *Ctx) ruleDeferredCopy(rr *RuleRep, only ...string) {
 				if rb == ssa.Value(msg) {
 					bad = true
 				}
-				if al, ok := b.(*ssa.Alloc); ok && typeName(al.Type()) == "Message" {
+				al, isAl := b.(*ssa.Alloc)
+				if !isAl {
+					continue
+				}
+				if typeName(al.Type()) == "Message" {
 					if _, isStruct := al.Type().Underlying().(*types.Pointer).Elem().Underlying().(*types.Struct); isStruct {
 						copyAlloc = al
-					} else if sts := c.cellStores[al]; len(sts) == 1 {
-						if inner, ok := c.Resolve(sts[0].Val).(*ssa.Alloc); ok && inner.Parent() == f {
-							copyAlloc = inner
-						}
+						continue
 					}
 				}
-				// cell holding the pointer parameter
-				if al, ok := b.(*ssa.Alloc); ok {
-					if sts := c.cellStores[al]; len(sts) == 1 && sts[0].Val == ssa.Value(msg) {
+				// a captured variable holding a *Message: what it holds when the closure is queued, and anything assigned later
+				if pt, ok := al.Type().Underlying().(*types.Pointer).Elem().Underlying().(*types.Pointer); !ok || typeName(pt) != "Message" {
+					continue
+				}
+				isCellStore := func(in ssa.Instruction) bool {
+					s, ok := in.(*ssa.Store)
+					return ok && s.Addr == ssa.Value(al)
+				}
+				for _, s := range c.cellStores[al] {
+					if s.Parent() != f || s.Addr != ssa.Value(al) {
 						bad = true
+						continue
 					}
+					_, before := CanReach(f, s, func(in ssa.Instruction) bool { return in == ssa.Instruction(st) }, PathQ{BlockInstr: isCellStore})
+					_, after := CanReach(f, st, func(in ssa.Instruction) bool { return in == ssa.Instruction(s) }, PathQ{})
+					if !before && !after {
+						continue
+					}
+					inner, ok := c.Resolve(s.Val).(*ssa.Alloc)
+					if !ok || inner.Parent() != f || (copyAlloc != nil && copyAlloc != inner) {
+						bad = true
+						continue
+					}
+					if _, isStruct := inner.Type().Underlying().(*types.Pointer).Elem().Underlying().(*types.Struct); !isStruct || typeName(inner.Type()) != "Message" {
+						bad = true
+						continue
+					}
+					copyAlloc = inner
 				}
 			}
 			if bad || copyAlloc == nil {
@@ -678,7 +702,7 @@ func (c *Ctx) ruleDeferredCopy(rr *RuleRep, only ...string) {
 			whole := false
 			for _, s := range c.cellStores[copyAlloc] {
 				if s.Addr == ssa.Value(copyAlloc) {
-					if ld, ok := s.Val.(*ssa.UnOp); ok && ld.Op == token.MUL && ld.X == ssa.Value(msg) {
+					if ld, ok := s.Val.(*ssa.UnOp); ok && ld.Op == token.MUL && c.Resolve(ld.X) == ssa.Value(msg) {
 						if Dominated(f, st, func(in ssa.Instruction) bool { return in == ssa.Instruction(s) }, PathQ{}) {
 							whole = true
 						}
